@@ -460,6 +460,133 @@ def normFromL : Nat → Kids → Kids × Nat
     (({ e with id := (n : Int) }, t') :: r', n2)
 end
 
+/- ## One `Parser` used for several trees (a second `Parse()` on the same reader)
+
+   After a successful `Parse` the unscan buffer is empty (the final `;` was read by
+   `scanIgnoreWhitespace`), so the next call goes on right after that `;`. -/
+
+theorem iter_stop_le (C : Codec) (st : PState) (tok : Tok) (lit pos rest : List Char) (st' : PState) (r : List Char)
+    (h : iter C st tok lit pos rest = .stop (.ok (st', r))) : r = pos ∨ r = rest := by
+  unfold iter at h
+  split at h
+  all_goals (try simp only [] at h)
+  all_goals repeat' split at h
+  all_goals first
+    | (cases h; done)
+    | (cases h; first | exact Or.inl rfl | exact Or.inr rfl)
+    | skip
+
+theorem run_le (C : Codec) : ∀ (n : Nat) (inp : List Char) (st st' : PState) (r : List Char), inp.length ≤ n →
+    run C st inp = .ok (st', r) → r.length ≤ inp.length := by
+  intro n
+  induction n with
+  | zero =>
+    intro inp st st' r hn h
+    rw [run] at h
+    split at h
+    · rename_i o ho
+      subst h
+      rcases iter_stop_le C st _ _ _ _ st' r ho with h1 | h1
+      · rw [h1]; exact skipWs_le C inp
+      · rw [h1]; exact scanIW_le C inp
+    · split at h
+      · cases h
+      · rename_i hne
+        have := scanIW_lt C inp hne
+        omega
+  | succ n ih =>
+    intro inp st st' r hn h
+    rw [run] at h
+    split at h
+    · rename_i o ho
+      subst h
+      rcases iter_stop_le C st _ _ _ _ st' r ho with h1 | h1
+      · rw [h1]; exact skipWs_le C inp
+      · rw [h1]; exact scanIW_le C inp
+    · split at h
+      · cases h
+      · rename_i st2 r2 hi hne
+        have h1 := iter_le C st _ _ _ _ st2 r2 hi
+        have h2 := scanIW_lt C inp hne
+        have := ih r2 st2 st' r (by omega) h
+        omega
+
+/-- `Parser.Parse`, returning also the input the reader is left at on success. -/
+def parseR (C : Codec) (inp : List Char) : Outcome (T × List Char) :=
+  let s0 := scanIW C inp
+  let start : Option (List Char) :=
+    if s0.1 = .openbrack then
+      match consumeComment C s0.2.2 [] with
+      | none => none
+      | some (_, r) => some r
+    else some inp
+  match start with
+  | none => .err "unmatched bracket"
+  | some inp1 =>
+    if (scanIW C inp1).1 ≠ .openpar then .err "found …, expected ("
+    else
+      match run C {} (skipWs C inp1) with
+      | .err m => .err m
+      | .panic m => .panic m
+      | .unrep m => .unrep m
+      | .ok (st, rest) =>
+        if st.level != 0 then .err "mismatched parenthesis after parsing"
+        else if (scanIW C rest).1 ≠ .eot then .err "found …, expected ;"
+        else match st.result with
+          | none => .panic "nil root in Tips()"
+          | some t => .ok (trimTips t, (scanIW C rest).2.2)
+
+theorem parseR_lt (C : Codec) (inp : List Char) (t : T) (r : List Char) (h : parseR C inp = .ok (t, r)) :
+    r.length < inp.length := by
+  unfold parseR at h
+  simp only [] at h
+  split at h
+  · cases h
+  · rename_i inp1 hstart
+    have hinp1 : inp1.length ≤ inp.length := by
+      split at hstart
+      · split at hstart
+        · cases hstart
+        · rename_i c r2 hc
+          cases hstart
+          have := consumeComment_le C _ _ _ _ _ (Nat.le_refl _) hc
+          have := scanIW_le C inp
+          omega
+      · cases hstart; exact Nat.le_refl _
+    split at h
+    · cases h
+    · split at h
+      · cases h
+      · cases h
+      · cases h
+      · rename_i st rest hrun
+        split at h
+        · cases h
+        · split at h
+          · cases h
+          · rename_i heot
+            split at h
+            · cases h
+            · cases h
+              have h1 := run_le C _ _ _ _ _ (Nat.le_refl _) hrun
+              have h2 := skipWs_le C inp1
+              have h3 := scanIW_lt C rest (by
+                intro he
+                apply heot
+                rw [he]
+                decide)
+              omega
+
+/-- `Parse()` called again and again on the same Parser until it fails: the outcomes, the failure last. -/
+def parseMany (C : Codec) (inp : List Char) : List (Outcome T) :=
+  match h : parseR C inp with
+  | .ok (t, r) => .ok t :: parseMany C r
+  | .err m => [.err m]
+  | .panic m => [.panic m]
+  | .unrep m => [.unrep m]
+termination_by inp.length
+decreasing_by exact parseR_lt C inp t r h
+
 /- ## The scanner before fix 6ae5e49 (defect F1), kept as a variant for the regression theorem
 
    `var eof = rune(0)`: `read()` answered NUL at the end of the input, so a NUL *in* the input was taken for
